@@ -22,6 +22,19 @@ class AttrError(ValueError):
     pass
 
 
+class _Resp:
+    def __init__(self, status):
+        self.status = status
+
+
+class WrapError(Exception):
+    """the common "wrap a response" shape: replaying the constructor with e.args raises AttributeError, not TypeError"""
+
+    def __init__(self, response):
+        super().__init__(response.status)
+        self.code = response.status
+
+
 def _mk_exc(kind, idx, opi=0):
     """every exception carries the index of the operation that raised it, so that a stale one is recognisable"""
     if kind == 'ValueError':
@@ -32,6 +45,8 @@ def _mk_exc(kind, idx, opi=0):
         e = AttrError('attr', idx)
         e.payload = [idx, 'p', opi]
         return e
+    if kind == 'Wrap':
+        return WrapError(_Resp((idx, 'w%d' % opi)))
     if kind == 'SystemExit':
         return SystemExit(3, opi)
     if kind == 'KeyError':
@@ -704,9 +719,13 @@ def _do_apply(pool, op, opi, o, mk_funcs, S, obs):
 
         def cb(v, i=i):
             cb_log.append(('cb', i, _j(v), round(S.now - S.t0, 6)))
+            if op.get('cb_dur'):
+                sim.time_shim.sleep(op['cb_dur'])
 
         def ecb(e, i=i):
             cb_log.append(('ecb', i, type(e).__name__, round(S.now - S.t0, 6)))
+            if op.get('cb_dur'):
+                sim.time_shim.sleep(op['cb_dur'])
         if t.get('kwargs'):
             r = pool.apply_async(task, args=(i,), kwargs={'b': i + 1} if False else None, callback=cb, error_callback=ecb, **kw)
         else:
@@ -715,6 +734,7 @@ def _do_apply(pool, op, opi, o, mk_funcs, S, obs):
         if t.get('gap'):
             sim.time_shim.sleep(t['gap'])
     outs = o['apply'] = []
+    excs = o['apply_exc'] = {}
     order = op.get('wait_order') or list(range(len(results)))
     if op.get('join_first'):
         pool.stop_and_join()
@@ -728,6 +748,7 @@ def _do_apply(pool, op, opi, o, mk_funcs, S, obs):
             raise
         except BaseException as e:  # noqa
             outs.append((i, 'raise', type(e).__name__, r.ready()))
+            excs[str(i)] = exc_info(e)
     o['outcome'] = 'ok'
 
 
